@@ -111,6 +111,38 @@ def chain_ok(m, n, k, v):
     return jeq(serialize_json(G), serialize_json(F))
 
 
+def chain_after_edit_ok(m, n, how, v):
+    """Base -> Middle -> Leaf where Middle is reconfigured AFTER its definition and BEFORE Leaf is declared:
+    Leaf == flat class built from Middle's CURRENT configuration plus Leaf's additions"""
+    from vf.common import Object, ObjectMeta, Property, Integer, String, verdict, serialize_json, jeq, jcopy
+    from statham.schema.elements.meta import ObjectClassDict
+
+    Base = Object.inline("Base", properties={"a": Property(Integer(minimum=m), required=True), "legacy": Property(String(), required=True)}, additionalProperties=False)
+    Middle = ObjectMeta("Middle", (Base,), ObjectClassDict())
+    if how == 0:
+        del Middle.properties["legacy"]
+    elif how == 1:
+        Middle.properties = {"a": Property(Integer(maximum=n))}
+    elif how == 2:
+        Middle.properties["legacy"] = Property(Integer(), required=False)
+    else:
+        Middle.properties.pop("a")
+        Middle.additionalProperties = Integer()
+    cd = ObjectClassDict()
+    cd["c"] = Property(Integer(maximum=n))
+    Leaf = ObjectMeta("Leaf", (Middle,), cd)
+    flat_props = {k: Property(p.element, required=p.required, source=p.source) for k, p in Middle.properties.items()}
+    flat_props["c"] = Property(Integer(maximum=n))
+    Flat = Object.inline("Leaf", properties=flat_props, additionalProperties=Middle.additionalProperties)
+    ok_l, r = verdict(Leaf, jcopy(v))
+    ok_f, _ = verdict(Flat, jcopy(v))
+    if ok_l != ok_f:
+        return False
+    if ok_l and not (isinstance(r, Middle) and isinstance(r, Base)):
+        return False
+    return jeq(serialize_json(Leaf), serialize_json(Flat))
+
+
 def isolation_ok(kw, m, n, op, v, w):
     """the parent is untouched by defining, using and reconfiguring the child"""
     from vf.common import snapshot, serialize_json, verdict, jcopy, Property, Integer, result_eq, jeq
@@ -178,6 +210,9 @@ def harnesses(ctx) -> List[H]:
         hs.append(mk(f"c15_merge_parent_used_first_{kw}", f"cf: bool, m: int, n: int, padd: bool, pover: bool, v: {DV}", DPRE,
                      f"return merge_ok({kw!r}, True, cf, m, n, padd, pover, v, True)", timeout=200, group="merge",
                      tier="quick" if kw == "additionalProperties" else "thorough", covers=f"{kw}: the parent validates values BEFORE the child is declared"))
+    hs.append(mk("c15_chain_after_edit", f"m: int, n: int, how: int, v: Dict[str, Union[int, str]]", ["0 <= how < 4", "len(v) <= 2", "all(k in ('a', 'legacy', 'c', 'z') for k in v)", "all((not isinstance(x, str)) or len(x) <= 1 for x in v.values())"],
+                 "return chain_after_edit_ok(m, n, concretize_int(how, 0, 3), v)", timeout=200, group="merge",
+                 covers="three-level chain whose middle class is reconfigured (property deleted / replaced / properties reassigned) before the leaf is declared"))
     hs.append(mk("c15_chain", f"m: int, n: int, k: int, v: {DV}", DPRE, "return chain_ok(m, n, k, v)", timeout=120, group="merge"))
     for kw in ("required", "additionalProperties", "patternProperties", "dependencies", "minProperties"):
         for op in range(6):
